@@ -39,6 +39,7 @@ type c17Fix struct {
 	flatEnc []byte
 	evText  *psatoken.Evidence // decoded from a token whose protected header gives alg as the text "ES256"
 	wide    [2][]byte          // two profile-1 claims-sets of the same size with an unsigned key above MaxInt64
+	evUnpr  *psatoken.Evidence // decoded from a token signed over an empty protected header, alg in the unprotected one
 }
 
 func newC17Fix() *c17Fix {
@@ -99,6 +100,14 @@ func newC17Fix() *c17Fix {
 			panic(err)
 		}
 	}
+	{
+		prot := []byte{} // the empty byte string: no protected parameters
+		v, _ := viewSign1(f.tokP2)
+		f.evUnpr = &psatoken.Evidence{}
+		if err := f.evUnpr.UnmarshalCOSE(envelope(prot, mcbor.M(mcbor.U(1), mcbor.I(-7)), v.payload, rawSign(f.k1, "ES256", prot, v.payload))); err != nil {
+			panic(err)
+		}
+	}
 	for i := range f.wide {
 		w := *cl[1]
 		w.ClientID = i32p(int32(100 + i))
@@ -117,7 +126,7 @@ func (f *c17Fix) shared() []any {
 	for _, c := range f.claims {
 		out = append(out, c)
 	}
-	return append(out, f.evDec, f.evSign, f.flat, f.evText)
+	return append(out, f.evDec, f.evSign, f.flat, f.evText, f.evUnpr)
 }
 
 type c17Op struct {
@@ -234,6 +243,7 @@ func c17Ops() []c17Op {
 		c17Op{"Getters(P2-decoded-without-components)", func(f *c17Fix) string { return hashS(getterVector(f.claims[5])) }},
 		c17Op{"EncodeCBOR+JSON(P2-decoded-without-components)", func(f *c17Fix) string { return hashS(encObs(f.claims[5])) }},
 		c17Op{"Verify(decoded Evidence, alg given as text)", func(f *c17Fix) string { return fmt.Sprint(f.evText.Verify(f.k1.Pub) == nil) }},
+		c17Op{"Verify(decoded Evidence, alg only in the unprotected header)", func(f *c17Fix) string { return fmt.Sprint(f.evUnpr.Verify(f.k1.Pub) == nil) }},
 		c17Op{"DecodeClaimsFromCBOR x2 (private; unsigned key above MaxInt64)", func(f *c17Fix) string {
 			var sb strings.Builder
 			for i := range f.wide {
